@@ -173,7 +173,8 @@ int main()
                     if (r[0] == 'c') { src = setup.m_coinbase_txns.at(std::stoul(r.substr(1))); }
                     else { size_t c = r.find(':'); src = txs.at(std::stoul(r.substr(1, c - 1))); v = std::stoul(r.substr(c + 1)); }
                     if (v >= src->vout.size()) return "BADCASE vout";
-                    in_txs.push_back(src); ins.emplace_back(src->GetHash(), v); total += src->vout[v].nValue;
+                    if (std::find(in_txs.begin(), in_txs.end(), src) == in_txs.end()) in_txs.push_back(src);
+                    ins.emplace_back(src->GetHash(), v); total += src->vout[v].nValue;
                 }
                 std::vector<CTxOut> outs;
                 CAmount each = (total - fee) / (CAmount)nout;
